@@ -103,3 +103,183 @@ Proof.
   split; [exact K_cic_proper| |exact K_cic_nonneg].
   intros x H. apply K_cic_out. lra.
 Qed.
+
+(* ---------------------------------------------------------------- the window sum *)
+Definition delta (o : option Z) (a : Z) : Q :=
+  match o with Some x => if x =? a then 1%Q else 0%Q | None => 0%Q end.
+
+Lemma nearest_floor p i :
+  (inject_Z i - p <= 1 # 2)%Q -> (p - inject_Z i <= 1 # 2)%Q -> i = Qfloor p \/ i = Qfloor p + 1.
+Proof.
+  intros H1 H2. pose proof (Qfloor_le p) as Hf. pose proof (Qlt_floor p) as Hc.
+  rewrite inject_Z_plus in Hc. change (inject_Z 1) with 1%Q in Hc.
+  assert (A : Qfloor p <= i) by (apply Zle_of_Qlt1; lra).
+  assert (B : i <= Qfloor p + 1) by (apply Zle_of_Qlt1; rewrite inject_Z_plus; change (inject_Z 1) with 1%Q; lra).
+  lia.
+Qed.
+
+Lemma window_sum3 (F : Z -> Q) p i :
+  (inject_Z i - p <= 1 # 2)%Q -> (p - inject_Z i <= 1 # 2)%Q ->
+  (forall c, c <= i - 2 \/ i + 2 <= c -> (F c == 0)%Q) ->
+  (Qsum (map F (window p)) == F (i - 1)%Z + F i + F (i + 1)%Z)%Q.
+Proof.
+  intros H1 H2 HF. unfold window, zrange. cbn [seq map Qsum Z.of_nat Pos.of_succ_nat Pos.succ].
+  destruct (nearest_floor p i H1 H2) as [E|E].
+  - rewrite <- E.
+    replace (i - 2 + 0) with (i - 2) by lia. replace (i - 2 + 1) with (i - 1) by lia.
+    replace (i - 2 + 2) with i by lia. replace (i - 2 + 3) with (i + 1) by lia.
+    replace (i - 2 + 4) with (i + 2) by lia.
+    rewrite (HF (i - 2)) by lia. rewrite (HF (i + 2)) by lia. ring.
+  - replace (Qfloor p) with (i - 1) by lia.
+    replace (i - 1 - 2 + 0) with (i - 3) by lia. replace (i - 1 - 2 + 1) with (i - 2) by lia.
+    replace (i - 1 - 2 + 2) with (i - 1) by lia. replace (i - 1 - 2 + 3) with i by lia.
+    replace (i - 1 - 2 + 4) with (i + 1) by lia.
+    rewrite (HF (i - 3)) by lia. rewrite (HF (i - 2)) by lia. ring.
+Qed.
+
+Lemma far_abs p i c :
+  (inject_Z i - p <= 1 # 2)%Q -> (p - inject_Z i <= 1 # 2)%Q -> c <= i - 2 \/ i + 2 <= c ->
+  (3 # 2 <= Qabs (inject_Z c - p))%Q.
+Proof.
+  intros H1 H2 [Hc|Hc].
+  - apply Qle_of_Zle in Hc. unfold Z.sub in Hc. rewrite inject_Z_plus in Hc. change (inject_Z (- (2))) with (-2 # 1)%Q in Hc.
+    rewrite Qabs_neg by lra. lra.
+  - apply Qle_of_Zle in Hc. rewrite inject_Z_plus in Hc. change (inject_Z 2) with 2%Q in Hc.
+    rewrite Qabs_pos by lra. lra.
+Qed.
+
+Lemma Kterm_delta K g a p c :
+  (Kterm K g a p c == delta (Some (c mod g)) a * K (inject_Z c - p))%Q.
+Proof. unfold Kterm, delta. destruct (c mod g =? a); ring. Qed.
+
+Lemma three_point K g a p i : kernel_like K ->
+  (inject_Z i - p <= 1 # 2)%Q -> (p - inject_Z i <= 1 # 2)%Q ->
+  (Kper K g a p ==
+   delta (Some ((i - 1) mod g)%Z) a * K (inject_Z (i - 1) - p) + delta (Some (i mod g)%Z) a * K (inject_Z i - p)
+   + delta (Some ((i + 1) mod g)%Z) a * K (inject_Z (i + 1) - p))%Q.
+Proof.
+  intros HK H1 H2. unfold Kper. rewrite (window_sum3 _ p i H1 H2).
+  - rewrite !Kterm_delta. reflexivity.
+  - intros c Hc. unfold Kterm. destruct (c mod g =? a); [|reflexivity].
+    apply (k_support K HK). apply (far_abs p i c H1 H2 Hc).
+Qed.
+
+(* partition of unity of the two kernels over the integers *)
+Lemma K_tsc_sum1 p i :
+  (inject_Z i - p <= 1 # 2)%Q -> (p - inject_Z i <= 1 # 2)%Q ->
+  (K_tsc (inject_Z (i - 1) - p) + K_tsc (inject_Z i - p) + K_tsc (inject_Z (i + 1) - p) == 1)%Q.
+Proof.
+  intros H1 H2. pose proof (inject_Z_sub1 i) as Em. pose proof (inject_Z_add1 i) as Ep.
+  rewrite (K_tsc_mid (inject_Z i - p)) by (apply Qabs_Qle_condition; lra).
+  rewrite (K_tsc_side (inject_Z (i - 1) - p)) by (rewrite Qabs_neg by lra; lra).
+  rewrite (K_tsc_side (inject_Z (i + 1) - p)) by (rewrite Qabs_pos by lra; lra).
+  rewrite (Qabs_neg (inject_Z (i - 1) - p)) by lra. rewrite (Qabs_pos (inject_Z (i + 1) - p)) by lra.
+  rewrite Em, Ep. ring.
+Qed.
+
+Lemma K_cic_sum1 p i :
+  (inject_Z i - p <= 1 # 2)%Q -> (p - inject_Z i <= 1 # 2)%Q ->
+  (K_cic (inject_Z (i - 1) - p) + K_cic (inject_Z i - p) + K_cic (inject_Z (i + 1) - p) == 1)%Q.
+Proof.
+  intros H1 H2. pose proof (inject_Z_sub1 i) as Em. pose proof (inject_Z_add1 i) as Ep.
+  rewrite (K_cic_in (inject_Z i - p)) by (apply Qabs_Qle_condition; lra).
+  destruct (Qlt_le_dec 0 (inject_Z i - p)) as [Hd|Hd].
+  - rewrite (K_cic_in (inject_Z (i - 1) - p)) by (rewrite Qabs_neg by lra; lra).
+    rewrite (K_cic_out (inject_Z (i + 1) - p)) by (rewrite Qabs_pos by lra; lra).
+    rewrite (Qabs_neg (inject_Z (i - 1) - p)) by lra. rewrite (Qabs_pos (inject_Z i - p)) by lra.
+    rewrite Em. ring.
+  - rewrite (K_cic_out (inject_Z (i - 1) - p)) by (rewrite Qabs_neg by lra; lra).
+    rewrite (K_cic_in (inject_Z (i + 1) - p)) by (rewrite Qabs_pos by lra; lra).
+    rewrite (Qabs_pos (inject_Z (i + 1) - p)) by lra. rewrite (Qabs_neg (inject_Z i - p)) by lra.
+    rewrite Ep. ring.
+Qed.
+
+(* the nearest integer exists: used to state facts about Kper without reference to any rounding rule *)
+Lemma nearest_exists p : exists i, (inject_Z i - p <= 1 # 2)%Q /\ (p - inject_Z i <= 1 # 2)%Q.
+Proof. exists (round_half_even p). apply round_half_even_bound. Qed.
+
+(* period 1: the periodised kernel is the constant 1 (a one-cell axis collects the whole weight) *)
+Lemma Kper_g1 K p : kernel_like K ->
+  (forall i, (inject_Z i - p <= 1 # 2)%Q -> (p - inject_Z i <= 1 # 2)%Q ->
+     (K (inject_Z (i - 1) - p) + K (inject_Z i - p) + K (inject_Z (i + 1) - p) == 1)%Q) ->
+  (Kper K 1 0 p == 1)%Q.
+Proof.
+  intros HK Hsum. destruct (nearest_exists p) as [i [H1 H2]].
+  rewrite (three_point K 1 0 p i HK H1 H2). rewrite !Z.mod_1_r. cbn [delta Z.eqb].
+  pose proof (Hsum i H1 H2) as E. lra.
+Qed.
+
+Lemma Kper_nonneg K g a p : kernel_like K -> (0 <= Kper K g a p)%Q.
+Proof.
+  intros HK. unfold Kper. induction (window p) as [|c t IH]; cbn [map Qsum]; [lra|].
+  assert (0 <= Kterm K g a p c)%Q; [|lra].
+  unfold Kterm. destruct (c mod g =? a); [apply (k_nonneg K HK)|lra].
+Qed.
+
+(* ---------------------------------------------------------------- whole-cell shifts *)
+Lemma Qfloor_unique x n : (inject_Z n <= x)%Q -> (x < inject_Z (n + 1))%Q -> Qfloor x = n.
+Proof.
+  intros H1 H2. pose proof (Qfloor_le x) as Hf. pose proof (Qlt_floor x) as Hc.
+  rewrite inject_Z_plus in H2, Hc. change (inject_Z 1) with 1%Q in *.
+  assert (Qfloor x <= n) by (apply Zle_of_Qlt1; lra).
+  assert (n <= Qfloor x) by (apply Zle_of_Qlt1; lra). lia.
+Qed.
+
+Lemma Qfloor_add_Z p t : Qfloor (p + inject_Z t) = Qfloor p + t.
+Proof.
+  pose proof (Qfloor_le p) as Hf. pose proof (Qlt_floor p) as Hc.
+  apply Qfloor_unique; rewrite !inject_Z_plus in *; lra.
+Qed.
+
+Lemma cong_iff_ex a b m : m <> 0 -> (a mod m = b mod m <-> exists k, a = b + k * m).
+Proof.
+  intros Hm. split.
+  - intros E. exists (a / m - b / m).
+    pose proof (Z.div_mod a m Hm). pose proof (Z.div_mod b m Hm). nia.
+  - intros [k ->]. apply Z_mod_plus_full.
+Qed.
+
+Lemma mod_shift_eqb g a c t : 0 < g -> 0 <= a < g -> ((c + t) mod g =? (a + t) mod g) = (c mod g =? a).
+Proof.
+  intros Hg Ha. apply Bool.eq_true_iff_eq. rewrite !Z.eqb_eq.
+  rewrite <- (Z.mod_small a g) at 2 by lia.
+  rewrite !cong_iff_ex by lia. split; intros [k E]; exists k; lia.
+Qed.
+
+Lemma Kterm_shift K g a p c t : Proper (Qeq ==> Qeq) K -> 0 < g -> 0 <= a < g ->
+  (Kterm K g ((a + t) mod g) (p + inject_Z t) (c + t) == Kterm K g a p c)%Q.
+Proof.
+  intros HK Hg Ha. unfold Kterm. rewrite mod_shift_eqb by assumption.
+  destruct (c mod g =? a); [|reflexivity].
+  apply HK. rewrite inject_Z_plus. ring.
+Qed.
+
+(* shifting the particle by t whole cells moves its periodised kernel by t cells (mod g);
+   t a multiple of g (crossing the periodic boundary) leaves it in place *)
+Lemma Kper_shift K g a p t : Proper (Qeq ==> Qeq) K -> 0 < g -> 0 <= a < g ->
+  (Kper K g ((a + t) mod g) (p + inject_Z t) == Kper K g a p)%Q.
+Proof.
+  intros HK Hg Ha. unfold Kper, window. rewrite Qfloor_add_Z. unfold zrange.
+  cbn [seq map Qsum Z.of_nat Pos.of_succ_nat Pos.succ].
+  repeat match goal with
+    | |- context [Kterm K g ((a + t) mod g) (p + inject_Z t) (Qfloor p + t - 2 + ?k)] =>
+        replace (Qfloor p + t - 2 + k) with (Qfloor p - 2 + k + t) by lia;
+        rewrite (Kterm_shift K g a p (Qfloor p - 2 + k) t HK Hg Ha)
+    end.
+  reflexivity.
+Qed.
+
+Lemma Kper_proper K g a p p' : Proper (Qeq ==> Qeq) K -> (p == p')%Q -> (Kper K g a p == Kper K g a p')%Q.
+Proof.
+  intros HK E. unfold Kper, window. rewrite (Qfloor_comp _ _ E).
+  induction (zrange (Qfloor p' - 2) 5) as [|c t IH]; cbn [map Qsum]; [reflexivity|].
+  rewrite IH. apply Qplus_comp; [|reflexivity].
+  unfold Kterm. destruct (c mod g =? a); [|reflexivity]. apply HK. rewrite E. reflexivity.
+Qed.
+
+Lemma Kper_period K g a p m : Proper (Qeq ==> Qeq) K -> 0 < g -> 0 <= a < g ->
+  (Kper K g a (p + inject_Z (m * g)) == Kper K g a p)%Q.
+Proof.
+  intros HK Hg Ha. rewrite <- (Kper_shift K g a p (m * g) HK Hg Ha).
+  rewrite Z_mod_plus_full. rewrite Z.mod_small by lia. reflexivity.
+Qed.
